@@ -26,7 +26,7 @@ def depOfJson (tagged : List ((Str × Str) × Str)) (j : Json) : Except String D
                    external := flag "external" }
   pure (applyLineTag tagged d tag)
 
-def dbOfJson (g : Json) : Except String Db := do
+def dbOfJsonWith (exactBranch : Bool) (g : Json) : Except String Db := do
   let ps ← jarr g "products"
   let mut decls : List Decl := []
   let mut cur : List (Str × Str) := []
@@ -43,7 +43,11 @@ def dbOfJson (g : Json) : Except String Db := do
   for p in ps do
     let n ← jstr p "name"
     let v ← jstr p "version"
-    let deps ← (← jarr p "deps").mapM (depOfJson tagged)
+    -- `"xdeps"`: the lines of the `if (type == exact)` branch of the table (`"deps"`: the else branch)
+    let lines ← match (if exactBranch then p.getObjVal? "xdeps" else .error "") with
+      | .ok (Json.arr a) => pure a.toList
+      | _ => jarr p "deps"
+    let deps ← lines.mapM (depOfJson tagged)
     let missing := match p.getObjVal? "missing" with
       | .ok (Json.bool b) => b
       | _ => false
@@ -54,6 +58,8 @@ def dbOfJson (g : Json) : Except String Db := do
     for t in tags do
       if (← t.getStr?) == "current" then cur := cur ++ [(n, v)]
   pure { decls := decls, current := cur }
+
+def dbOfJson (g : Json) : Except String Db := dbOfJsonWith false g
 
 def prodToJson (p : Prod) : List Json := [ofStr p.name, ofStrOpt p.ver, Json.bool p.real]
 
@@ -99,6 +105,10 @@ def handle : Handler := fun j => do
   match op with
   | "all" =>
     let db ← dbOfJson (← j.getObjVal? "graph")
+    -- `"implicit": name`: the default (implicit) product is switched on
+    let db := match j.getObjVal? "implicit" with
+      | .ok (Json.str n) => db.withImplicit (Str.ofString n)
+      | _ => db
     let fuel := db.fuel
     let roots ← (← jarr j "roots").mapM pairOfJson
     let modes ← (← jarr j "modes").mapM fun m => do
@@ -135,6 +145,27 @@ def handle : Handler := fun j => do
                           Json.arr #[ofStr a, ofStr b, ofStrOpt c, Json.bool o]).toArray
                       | none => Json.null).toArray)]
     pure (Json.mkObj ([("lists", Json.arr lists.toArray), ("builds", Json.arr builds.toArray)] ++ usesPart))
+  | "exact" =>
+    -- `{"graph":G,"roots":[..],"modes":[..],"queries":[..]}`: the listings and `uses` of an object in exact mode
+    let g ← j.getObjVal? "graph"
+    let db ← dbOfJson g
+    let dbE ← dbOfJsonWith true g
+    let roots ← (← jarr j "roots").mapM pairOfJson
+    let modes ← (← jarr j "modes").mapM fun m => do
+      let a ← m.getArr?
+      match a.toList with
+      | [t, c] => do pure (← t.getBool?, ← c.getBool?)
+      | _ => throw "expected [topological, checkCycles]"
+    let lists := roots.map fun (n, v) =>
+      Json.arr (modes.map fun (t, c) => outcomeToJson (getDependentProductsExact dbE db db.fuel ⟨n, v, true⟩ t c)).toArray
+    let queries ← (← jarr j "queries").mapM pairOfJson
+    let usesPart : List (String × Json) :=
+      match usesInfoExact dbE db db.fuel with
+      | .outOfFuel => [("uses", "Recursion")]
+      | .cycle => [("uses", "Cycle")]
+      | .ok sb => [("uses", "ok"),
+                   ("users", Json.arr (queries.map fun (n, v) => Json.arr ((users sb n v).map userToJson).toArray).toArray)]
+    pure (Json.mkObj ([("lists", Json.arr lists.toArray)] ++ usesPart))
   | "setup" =>
     -- `{"graph":G,"setup":[[n,v]..],"roots":[[n,v]..],"modes":[..]}`: `eups list -D --setup` listings
     let db ← dbOfJson (← j.getObjVal? "graph")
